@@ -21,7 +21,7 @@ FIX_COMMITS = {  # (property, rule) -> fix commit in /repo
     ("C13", "P1"): "094a7c2", ("C13", "P2"): "094a7c2", ("C13", "P3"): "094a7c2",
     ("C03", "H1"): "7749e53", ("C06", "U2"): "a91c652", ("C15", "M2"): "5f5bd5b", ("C15", "M3"): "d1813fa",
     ("C12", "A1"): "359268c", ("C12", "A2"): "84d1c7d", ("C11", "D1"): "18618bf", ("C11", "D2"): "40f1949",
-    ("C11", "R1"): "467b51c", ("C16", "F1"): "157681b", ("C01", "W5"): "157681b", ("C16", "Q2"): "ed01309", ("C16", "Q3"): "d4aff69",
+    ("C11", "R1"): "467b51c", ("C16", "F1"): "157681b", ("C01", "W5"): "157681b", ("C18", "S13"): "ed01309", ("C16", "Q2"): "ed01309", ("C16", "Q3"): "d4aff69",
     ("C04", "A2"): "a055c8d",
 }
 KNOWN_DEMOS = {
